@@ -338,7 +338,7 @@ def one_case(ctx, prog, vecs=None, label="gen"):
 
     # a model read back from its own dictionary form gates as the model it was written from - on every call, not
     # only the first (the values are carried over path by path)
-    if prog_asserts and priors and rng.random() < 0.5:
+    if prog_asserts and priors and (label != "gen" or rng.random() < 0.5):
         reloaded_gate(ctx, prog, H, model, prog_asserts, todo, label)
     # routes and flags, operator-built assertions (Lean gateRoute / cmpOpnd, chainOpnd, reflOpnd) - c03_grow.py
     if vecs is None or label.startswith("route"):
